@@ -17,6 +17,10 @@ func verifNewClient(store Persistence, cfg *Config) *Client {
 		d := &verifDialer{}
 		cfg.Dialer = d.dial
 	}
+	// as InitSession/AdoptSession do: the client never talks to a store directly
+	if vs, ok := store.(*verifStore); ok {
+		store = &ruggedPersistence{Persistence: vs}
+	}
 	return newClient(store, cfg)
 }
 
